@@ -2,7 +2,7 @@
 PROPERTY = 'C06'
 THOROUGH_SEEDS = 1      # the thorough enumeration of this driver is already minutes long
 LEVEL = 'proof'
-DEDUCTIVE = ['contracts.c06_groups']
+DEDUCTIVE = ['contracts.c06_groups', 'contracts.c06_commands']
 BUDGET_S = {'quick': 20.0, 'thorough': 60.0}
 MIN_OBLIGATIONS = {'quick': 1000, 'thorough': 1000}
 BOUNDED_FLOOR = {'quick': 1000, 'thorough': 5000}
